@@ -250,6 +250,7 @@ def jobs_for(pid, tier, seed):
         n = 4 if q else 8
         for i in range(n):
             J.append({'name': f'get_pg_config obligations, shard {i + 1}/{n}', 'kind': 'pgconfig', 'cfg': {'shard': (i, n)}, 'crates': ['deadpool_postgres']})
+        J.append({'name': 'create_pool / builder: pool and manager sections, runtime, timeouts without a runtime', 'kind': 'pgconfig', 'cfg': {'part': 'create_pool'}, 'crates': ['deadpool', 'deadpool_postgres']})
     elif pid == 'C08':
         J.append(mfam('1 task... 3 tasks returning in any order, fifo+lifo, rejects', ['C08'], 6 if q else 8, tasks=3, env={'create': ('ok',), 'recycle': OE}, cancel=False, probe=False))
         J.append(mfam('2 tasks + retain, fifo+lifo', ['C08'], 6 if q else 8, tasks=2, env={'create': ('ok',), 'recycle': OE}, ctl=('retain',), cancel=False, probe=False))
